@@ -56,4 +56,9 @@ def transformM (t : Printer.PrecTable) (sp : Token.Spacing) (orc : Fold.Oracle) 
   let m := if o.convertPosargs then removePosargs m else m
   m
 
+/-- the module that reaches remove_annotations in the pipeline -/
+def beforeAnnotationsM (o : Opts) (m : Module) : Module :=
+  let m := if o.removeLiteralStatements then removeLiteralStatements m else m
+  if o.combineImports then travModule combineImports m else m
+
 end PMV.Minify
